@@ -125,3 +125,24 @@ def opt_replay(extra_flags=(), link_flags=(), name="opt_replay"):
             for v in (0, 1, 2, 3):
                 units.append((os.path.join(HARNESS, "opt_box.cpp"), "obox_%d_%d_%d" % (o, d, v), ["-DOP_ORDER=%d" % o, "-DOP_DIM=%d" % d, "-DOP_VARIANT=%d" % v]))
     return build(name, units, os.path.join(HARNESS, "opt_main.cpp"), extra_flags=extra_flags, link_flags=link_flags)
+
+
+def repo_test_with_hooks(test_src_name):
+    """the repository's own test program, unmodified, built with the verification guard ON and the trace sink force-included"""
+    src = os.path.join(REPO, test_src_name)
+    sink = os.path.join(HARNESS, "trace_sink.hpp")
+    flags = ["-std=c++17", "-O2", "-ffp-contract=off", "-DSPLINETRAJECTORY_VERIF", "-I" + os.path.join(REPO, "include"),
+             "-I" + os.path.join(REPO, "include", "large_scale_traj_optimizer"), "-I" + REPO, "-I/usr/include/eigen3", "-I" + HARNESS, "-include", sink]
+    key = _hash([src, sink, os.path.join(HARNESS, "hx.hpp")] + repo_headers() + glob.glob(os.path.join(REPO, "include", "**", "*.h*"), recursive=True), " ".join(flags))
+    d = os.path.join(CACHE, "build", "repotest-" + test_src_name.replace(".cpp", "") + "-" + key)
+    exe = os.path.join(d, "test")
+    if os.path.exists(exe):
+        return exe
+    os.makedirs(d, exist_ok=True)
+    p = subprocess.run([CXX] + flags + [src, "-o", exe + ".tmp", "-pthread"], capture_output=True, text=True)
+    if p.returncode != 0:
+        sys.stderr.write("BUILD FAILED (%s with hooks):\n%s\n" % (test_src_name, p.stderr[-3000:]))
+        raise SystemExit(3)
+    os.replace(exe + ".tmp", exe)
+    prune("repotest-" + test_src_name.replace(".cpp", ""), keep=d)
+    return exe
